@@ -127,8 +127,12 @@ def run_cases(ctx, rng, nbox, nx, sl):
             sl.count(f"matrix-calls-{m}")
             # the same values in the memory layouts a caller may hand over: C-contiguous, Fortran-ordered
             # (e.g. the transpose of a (dim, n) array), a strided view of a larger array
-            lay = int(rng.integers(0, 4))
-            if lay == 0:
+            lay = int(rng.integers(0, 5))
+            if lay == 4:
+                # single-precision genomes (the box stays a float64 array): the values are exact doubles all the same
+                mat = mat.astype(np.float32).astype(np.float64)
+                arg = mat.astype(np.float32)
+            elif lay == 0:
                 arg = mat.copy()
             elif lay == 1:
                 arg = np.asfortranarray(mat)
@@ -137,8 +141,8 @@ def run_cases(ctx, rng, nbox, nx, sl):
                 big[::2] = mat
                 arg = big[::2]
             else:
-                arg = np.array([c[:n] for c in cols], dtype=np.float64).T
-            sl.count(f"layout-{['C', 'F', 'strided', 'transposed-view'][lay]}")
+                arg = np.ascontiguousarray(mat.T).T  # a transposed view of a (dim, n) array
+            sl.count(f"layout-{['C', 'F', 'strided', 'transposed-view', 'float32'][lay]}")
             out = np.asarray(apply_bounds(arg, bounds, m))
             assert out.shape == mat.shape
             for j, (lo, hi) in enumerate(chunk):
